@@ -107,7 +107,7 @@ def judge_single(labels, uniq, opname, mode, pre, pts, res, err, before, after, 
         viol_add(f"C11/{kind}/{opname}/{mode}/labels-changed", f"labels became {labs_after.tolist()}; {where}", rep)
 
 
-def check_single(labels, opname, viol_add, counters, second=False, only=None):
+def check_single(labels, opname, viol_add, counters, second=False, only=None, constraint=None):
     """One call (or, with ``second``, two consecutive calls of the SAME move object on the same
     context: the second call is judged exactly like a first one)."""
     from quansino.mc.contexts import DisplacementContext
@@ -123,6 +123,10 @@ def check_single(labels, opname, viol_add, counters, second=False, only=None):
 
         def run(ch):
             atoms = make_atoms(n)
+            if constraint == "fixcom":
+                from ase.constraints import FixCom
+
+                atoms.set_constraint(FixCom())
             log = []
             ctx = DisplacementContext(atoms, ChoiceRNG(ch, Policy(**POLICY)))
             mv = DisplacementMove(labels.copy(), make_op(opname, log))
@@ -155,6 +159,23 @@ def check_single(labels, opname, viol_add, counters, second=False, only=None):
                 rep = {"check": PID, "func": "task_single_one", "arg": {"labels": labels.tolist(), "op": opname, "second": second, "only": ch.choices}}
                 where = f"labels {labels.tolist()} op {opname} target {mode}" + (f" (call {k + 1} of {len(plan)} on one move object, targets {list(plan)})" if second else "")
                 pts = [p for p in ch.trace if p.seg == seg]
+                if constraint:
+                    # a collective constraint legitimately shifts every atom: only two clauses stay decidable
+                    rep["arg"]["constraint"] = constraint
+                    checks = [p.idx for p in pts if p.kind == "user"]
+                    ch_d = after - before
+                    if err:
+                        viol_add(f"C11/single+{constraint}/{opname}/exception", f"{err}; {where}", rep)
+                    elif uniq and len(checks) == 2 and all(c == 1 for c in checks):
+                        if res or np.abs(ch_d).max() > 0:
+                            viol_add(f"C11/single+{constraint}/{opname}/all-attempts-vetoed-but-changed", f"returned {res!r}, positions changed by up to {np.abs(ch_d).max():.3g}; {where}", rep)
+                    elif uniq and res and n:
+                        pts_c = [p for p in pts if p.kind == "choice"]
+                        chosen = pre if pre is not None else (int(pts_c[0].label) if pts_c else None)
+                        others = np.flatnonzero(labels != chosen)
+                        if len(others) > 1 and np.abs(ch_d[others] - ch_d[others][0]).max() > 1e-12:
+                            viol_add(f"C11/single+{constraint}/{opname}/non-selected-atoms-not-shifted-rigidly", f"non-selected atoms moved by different vectors {js(ch_d[others])} (a centre-of-mass correction is one common shift); {where}", rep)
+                    continue
                 judge_single(labels, uniq, opname, mode, pre, pts, res, err, before, after, log, labs_after, viol_add, counters, rep, where, kind="single" if k == 0 else "single-second-call")
 
 
@@ -222,6 +243,15 @@ def check_composite(labels, n_moves, form, viol_add, counters, second=False, onl
             if form == "mul":
                 comp = DisplacementMove(labels.copy(), make_op("box", logs))
                 comp = comp * n_moves if n_moves > 1 else comp * 1
+            elif form == "add-right":  # a + (b + c): an elementary move in front of a composite
+                ms = [DisplacementMove(labels.copy(), make_op("box" if i % 2 == 0 else "ball", logs)) for i in range(n_moves)]
+                comp = ms[-1] * 1 if n_moves == 1 else ms[-1]
+                for m in reversed(ms[:-1]):
+                    comp = m + comp
+            elif form == "add-mul":  # a + (b * (n-1))
+                a = DisplacementMove(labels.copy(), make_op("ball", logs))
+                b = DisplacementMove(labels.copy(), make_op("box", logs))
+                comp = a + (b * (n_moves - 1)) if n_moves > 1 else a * 1
             else:
                 ms = [DisplacementMove(labels.copy(), make_op("box" if i % 2 == 0 else "ball", logs)) for i in range(n_moves)]
                 comp = ms[0] * 1 if n_moves == 1 else ms[0]
@@ -277,11 +307,12 @@ def task(arg):
         for op in arg["ops"]:
             check_single(labels, op, add, counters)
         for nm in arg["comp_sizes"]:
-            for form in ("mul", "add"):
+            for form in ("mul", "add") + (("add-right", "add-mul") if nm > 1 and len(labels) <= 3 else ()):
                 check_composite(labels, nm, form, add, counters)
         if arg.get("sequences"):
             for op in ("box", "trans"):
                 check_single(labels, op, add, counters, second=True)
+            check_single(labels, "box", add, counters, constraint="fixcom")
             for nm in (2, 3):
                 for form in ("mul", "add"):
                     check_composite(labels, nm, form, add, counters, second=True)
@@ -291,7 +322,7 @@ def task(arg):
 
 def task_single_one(arg):
     viol, seen, add = _mk_viol()
-    check_single(arg["labels"], arg["op"], add, {"executions": 0, "transitions": 0, "nontrivial": 0}, second=arg.get("second", False))
+    check_single(arg["labels"], arg["op"], add, {"executions": 0, "transitions": 0, "nontrivial": 0}, second=arg.get("second", False), constraint=arg.get("constraint"))
     return {"violations": viol}
 
 
@@ -331,7 +362,7 @@ def run(tier, seed):
         "label_arrays": acc.n("label_arrays"),
         "nontrivial_executions": acc.n("nontrivial"),
         "violating": acc.n("violating"),
-        "bound": "all label arrays of length 0..4 (thorough: 0..5) over {-3,-1,0,1,2,5}; check_move answers (max_attempts=2) on single moves; operations Box/Ball/Translation/Rotation; random and every pre-selected target; composites D*n and D+..+D for n=1..3 (length 5: 2..4); every particle-choice answer; one proposal value per draw; arrays of length <= 3 additionally: all two-call histories on one move object (ops Box/Translation, random and pre-selected targets, all check answers) and composite plans call-call / call-retire-all-call / preselect-call",
+        "bound": "all label arrays of length 0..4 (thorough: 0..5) over {-3,-1,0,1,2,5}; check_move answers (max_attempts=2) on single moves; operations Box/Ball/Translation/Rotation; random and every pre-selected target; composites D*n, (D+D)+D, D+(D+D) and D+(D*(n-1)) for n=1..3 (length 5: 2..4); every particle-choice answer; one proposal value per draw; arrays of length <= 3 additionally: all two-call histories on one move object (ops Box/Translation, random and pre-selected targets, all check answers) and composite plans call-call / call-retire-all-call / preselect-call",
         "exhaustive": True,
         "samples": [{"labels": [2, -3, 2, 0], "op": "rot", "target": "random", "checked": "moved set == atoms of chosen label, displacement == recorded operation result"}],
     }
